@@ -107,6 +107,14 @@ def scen_default_chunksize():
             sizes = [len(t[1][3][0][1]) for t in batches]
             if sum(sizes) != n or any(s != cs for s in sizes[:-1]) or r._number_left != len(batches):
                 bad.append('_map_async(%d items, %d workers): batches %r, buffer expects %d' % (n, psize, sizes, r._number_left))
+            for explicit in (1, 2, 10):
+                for empty in ([], iter(())):
+                    p3 = P.Pool.__new__(P.Pool)
+                    p3._state, p3._pool, p3._cache, p3._taskqueue = P.RUN, [object()] * psize, {}, Q()
+                    r3 = p3._map_async(f, empty, P.mapstar, explicit)
+                    if not r3.ready() or r3._value != [] or p3._cache:
+                        bad.append('_map_async of an empty input with chunksize %d: ready=%r value=%r, still in the cache: %s '
+                                   '(map() would never return)' % (explicit, r3.ready(), r3._value, bool(p3._cache)))
             p2 = P.Pool.__new__(P.Pool)
             p2._state, p2._pool, p2._cache, p2._taskqueue = P.CLOSE, [object()], {}, Q()
             if p2._map_async(f, [1], P.mapstar) is not None or p2._taskqueue.items:
